@@ -1,6 +1,7 @@
 package hx
 
 import (
+	"errors"
 	"fmt"
 	"runtime/debug"
 	"testing"
@@ -28,6 +29,9 @@ func RunProp[C any](t *testing.T, st *Stats, gen func(*rapid.T) C, run func(c C,
 		}
 		st.Eval()
 		if err := SafeRun(func() error { return run(rc, st) }); err != nil {
+			if IsInfra(err) {
+				t.Fatalf("INFRA-INCONCLUSIVE: %v", err)
+			}
 			Report(t, st.Property, st.Unit, rc, err)
 		}
 		return
@@ -46,9 +50,22 @@ func RunProp[C any](t *testing.T, st *Stats, gen func(*rapid.T) C, run func(c C,
 			ClearCurrent(st.Property, st.Unit)
 		}
 		if err != nil {
+			if IsInfra(err) {
+				if st.Infra(err) {
+					rt.Fatalf("INFRA-INCONCLUSIVE: too many harness infrastructure errors, last: %v", err)
+				}
+				return
+			}
 			Report(rt, st.Property, st.Unit, c, err)
 		}
 	})
+}
+
+// IsInfra: the error does not come from an oracle (no *Fail in its chain) but from the harness's own
+// infrastructure (ports, scratch space, process start): such a case is not judged.
+func IsInfra(err error) bool {
+	var f *Fail
+	return !errors.As(err, &f) // every oracle failure is a *Fail; anything else is the harness's own trouble
 }
 
 // RunCases is the same for enumerated (non-random) case lists; shard-split.
@@ -86,6 +103,12 @@ func RunCases[C any](t *testing.T, st *Stats, cases func(yield func(C) bool), ru
 			ClearCurrent(st.Property, st.Unit)
 		}
 		if err != nil {
+			if IsInfra(err) {
+				if st.Infra(err) {
+					t.Fatalf("INFRA-INCONCLUSIVE: too many harness infrastructure errors, last: %v", err)
+				}
+				return true
+			}
 			Report(t, st.Property, st.Unit, c, err)
 			return false
 		}
